@@ -72,3 +72,20 @@ def strip_notes(outcomes):
         key = (o.kind, repr(o.value))
         seen.setdefault(key, o)
     return list(seen.values())
+
+
+def host_objects(interp, model, c):
+    """Fresh abstract (public parser object, grammar parser object) obtained by abstractly running the public
+    parser's constructor (so the wiring of callbacks and tables is whatever __init__ really does)."""
+    from .absint import ClassV
+    root = c.root
+    pm, pcls = c.cg.cls_of[root]
+    parser = interp.instantiate(ClassV(pm, pcls), [])
+    gobj = None
+    g = c.grammar
+    for a, v in parser.attrs.items():
+        if isinstance(v, Obj) and any(cc is g.gcls for _, cc in model.mro(v.cls.module, v.cls.node)):
+            gobj = v
+    if gobj is None:
+        raise AnalysisError('the public parser constructor does not create a grammar parser object (anchor vanished)')
+    return parser, gobj
